@@ -363,17 +363,23 @@ def table_text(events) -> str:
     return ';'.join(ent) if ent else '-'
 
 
-TIMED_OUT = set()     # decoders that hung once in this run: not called again (bounds the run time)
+TIMED_OUT = set()     # decoders / input classes that hung once in this run: not called again (bounds the run time)
 
 
-def bounded(check):
-    """wrap a check_case so that after one hang of a decoder its other cases are skipped"""
+def _k(keyfn, case):
+    import json
+    return json.dumps(keyfn(case), sort_keys=True, default=str)
+
+
+def bounded(check, keyfn):
+    """wrap a check_case so that after one hang the other cases of the same input class
+    (same match key) are skipped; other classes are still evaluated"""
     def run(case):
-        if case.get('decoder') in TIMED_OUT:
+        if _k(keyfn, case) in TIMED_OUT:
             return None
         msg = check(case)
         if msg and 'DecoderTimeout' in msg:
-            TIMED_OUT.add(case.get('decoder'))
+            TIMED_OUT.add(_k(keyfn, case))
         return msg
     return run
 
@@ -775,7 +781,7 @@ def _rank(code):
 
 def shrink(case):
     """smallest failing prefix / single error of a failing case"""
-    hung = case.get('decoder') in TIMED_OUT
+    hung = _k(match_key, case) in TIMED_OUT
     if not hung and check_case(case) is None:
         return case
     errs = case['errors']
@@ -808,7 +814,7 @@ def oracle(ctx, deep=False, broken=None):
     cases = oracle_cases(ctx, deep)
     n_eval = sum(len(c['errors']) for c in cases)
     TIMED_OUT.clear()
-    fails = first_failures(cases, bounded(check_case), key=match_key)
+    fails = first_failures(cases, bounded(check_case, match_key), key=match_key)
     for f in fails:
         f['input'] = shrink(f['input'])
         f['observed'] = check_case(f['input']) or f['observed']
